@@ -29,6 +29,20 @@ def sp_switches(hcode):
     return out
 
 
+def _strip_str(t):
+    """look through `as_str(&x)`, `&*x`, clone and Option payloads"""
+    for _ in range(12):
+        t = peel(t)
+        if is_call(t, "as_str", "Clone::clone", "clone", "Deref::deref", "as_ref", "as_deref") and t[3]:
+            t = t[3][0]
+            continue
+        if t[0] == "field" and t[1][0] == "downcast" and t[1][2] == "Some":
+            t = t[1][1]
+            continue
+        break
+    return t
+
+
 def rule_wire(R):
     f = R.f
     call, hb, hcode = roles.handshake(f)
@@ -39,6 +53,7 @@ def rule_wire(R):
         if bb in hcode.reachable and "agg" in rv and rv["agg"].get("adt") == "packets::Connect":
             aggs.append((hcode.rvalue_term(rv), s["span"]))
     R.exact("wire/connect", len(aggs), 1, "Connect{..} constructions in the handshake")
+    id_fields = set()
     for t, span in aggs:
         fl = dict(zip(t[4], t[5]))
         cs = fl.get("clean_start")
@@ -49,22 +64,37 @@ def rule_wire(R):
         cid = fl.get("client_id")
         if cid is not None and cid[0] == "agg" and cid[5]:
             cid = cid[5][0]
-        okc = cid is not None and chain(cid, extra=("as_str", "Clone::clone", "clone", "Deref::deref"))[1][:1] == ["client_id"] \
-            and any(x[0] == "field" and x[2] == "client_id" and x[3] == SESSION for x in walk(cid))
+        # the identifier is read from session state: `self.client_id`, or -- when the broker-assigned identifier is kept
+        # in a field of its own -- that field when set, the configured one otherwise
+        ex = ("as_str", "Clone::clone", "clone", "Deref::deref", "as_ref", "as_deref")
+        okc = cid is not None
+        for alt in (phi_alts(_strip_str(cid)) if cid is not None else []):
+            for alt2 in phi_alts(_strip_str(alt)):
+                r, nm = chain(alt2, extra=ex)
+                nm = [k for k in nm if not k.startswith("@") and k != "0"]
+                fld = [(x[3], x[2]) for x in walk(alt2) if x[0] == "field" and x[3] in (SESSION, SDATA)]
+                if r != ("param", "self") or not fld:
+                    okc = False
+                else:
+                    id_fields.add(fld[0])
+        okc = okc and bool(id_fields) and (SESSION, "client_id") in id_fields
         R.ob("wire/client-id", okc, "CONNECT carries the session's client identifier (found %s)" % show(cid), where=span)
-    # who writes Session.client_id
+    # who writes the identifier field(s)
     n = 0
-    for (b, bb, j, dst, rv, s, final) in f.field_stores(SESSION, "client_id"):
-        n += 1
-        t = b.rvalue_term(rv)
-        if b.name == hcode.name:
-            ok = any(x[0] == "downcast" and x[2] == "AssignedClientIdentifier" for x in walk(t))
-            # and only on the success path: after the property loop succeeded
-            R.ob("wire/client-id-writer/handshake", ok,
-                 "the handshake replaces the client identifier only by the CONNACK's Assigned Client Identifier "
-                 "(value %s)" % show(t), where=s["span"])
-        else:
-            R.ob("wire/client-id-writer/%s" % b.fn_name, False, "Session.client_id written in %s" % b.name, where=s["span"])
+    for (adt, fname) in sorted(id_fields or {(SESSION, "client_id")}):
+        for (b, bb, j, dst, rv, s, final) in f.field_stores(adt, fname):
+            n += 1
+            t = b.rvalue_term(rv)
+            if b.name == hcode.name:
+                ok = any(x[0] == "downcast" and x[2] == "AssignedClientIdentifier" for x in walk(t))
+                # and only on the success path: after the property loop succeeded
+                R.ob("wire/client-id-writer/handshake", ok,
+                     "the handshake replaces the client identifier only by the CONNACK's Assigned Client Identifier "
+                     "(value %s)" % show(t), where=s["span"])
+            else:
+                R.ob("wire/client-id-writer/%s" % b.fn_name, False,
+                     "%s.%s (the identifier CONNECT carries) written in %s: an identifier the broker assigned stays in force "
+                     "for every later CONNECT" % (adt.rsplit("::", 1)[-1], fname, b.name), where=s["span"])
     for b in f.bodies.values():
         for bb, j, s in b.assigns():
             rv = s["rv"]
